@@ -285,6 +285,9 @@ func c12Share(c *Ctx) {
 			}
 			retFalse, _ := onlyReturns(g, core.Point{B: cs.True, I: 0}, "false")
 			x, y := core.ExprStr(be.X), core.ExprStr(be.Y)
+			if x > y {
+				x, y = y, x
+			}
 			if retFalse && x == "len(a)" && y == "len(b)" {
 				lenT = true
 			}
